@@ -357,6 +357,11 @@ class StretchyTreeMatcher:
         if base_mappings:
             for mapping in base_mappings:
                 mapping.merge_map_with(use_previous)
+            if use_previous is not None:
+                # what this node binds may contradict the earlier match; with no children left nothing else would check it
+                base_mappings = [mapping for mapping in base_mappings if not mapping.has_conflicts()]
+                if not base_mappings:
+                    return []
             # base case this runs 0 times because no children
             # find each child of ins_node that matches IN ORDER
             base_sibs = [-1]
